@@ -216,7 +216,26 @@ def guard_covers(fn, node, l, r):
         if cond.get("k") != "bin":
             continue
         a, b, op = nbit(cond["l"]), nbit(cond["r"]), cond["op"]
-        holds_then = (op in (">=", ">") and a == ln and b == rn) or (op in ("<=", "<") and a == rn and b == ln)
+        # `L = V; if V >= r { L -= r }`: at the `if`, L still holds V (nearest preceding store to L in the same block, nothing in between writes L or V)
+        lns = {ln}
+        for blk_, idx_ in chain:
+            st_ = blk_["stmts"][idx_]
+            if (st_.get("e") if st_.get("k") in ("semi", "expr") else None) is c:
+                for j_ in range(idx_ - 1, -1, -1):
+                    pj = blk_["stmts"][j_]
+                    ej = pj.get("e") if pj.get("k") in ("semi", "expr") else None
+                    writes = [y for y in walk(pj) if y.get("k") in ("assign", "opassign")]
+                    if ej is not None and ej.get("k") == "assign" and nbit(ej["l"]) == ln and (is_path(ej["r"]) or ir.self_field_root(ej["r"])) and len(writes) == 1:
+                        vn = nbit(ej["r"])
+                        later = [y for k_ in range(j_ + 1, idx_) for y in walk(blk_["stmts"][k_])]
+                        if not any(y.get("k") in ("assign", "opassign") and nbit(y["l"]) in (ln, vn) for y in later) \
+                                and not any(y.get("k") == "let" and vn in ir.pat_names(y.get("pat") or {}) for y in later) \
+                                and not any(y.get("k") in ("mcall", "call", "macro") and y.get("name") not in ir.NOOP_MACROS for y in later):
+                            lns.add(vn)
+                        break
+                    if any(nbit(y["l"]) == ln or ir.self_field_root(y["l"]) == ir.self_field_root(l) for y in writes) or (pj.get("k") not in ("let", "semi", "expr")):
+                        break
+        holds_then = (op in (">=", ">") and a in lns and b == rn) or (op in ("<=", "<") and a == rn and b in lns)
         holds_else = (op in ("<", "<=") and a == ln and b == rn and op == "<") or (op == ">" and a == rn and b == ln)
         in_then = any(y is node for y in walk(c["then"]))
         in_else = c.get("else") is not None and any(y is node for y in walk(c["else"]))
